@@ -79,7 +79,7 @@ ASSUMPTIONS = ["relabellings are injective maps to positive integers (is_one_euc
                "numpy.int64 ids / multiplicities are used because the unchanged tree accepts them in every function C15 "
                "covers (measured: the campaign is green on /repo)",
                "histories are not run for the matrix and 1-Euclidean ops (their adapters build their own objects)"]
-TIMEOUT_S = 120.0       # CBC runs with threads = -1 (set by /repo) in up to 16 workers: a loaded machine needs the margin
+TIMEOUT_S = 240.0       # CBC runs with threads = -1 (set by /repo) in up to 16 workers: a loaded machine needs the margin
 CHUNK = 10
 THEOREMS_FOR_OP = {
     "c15.ord": "Properties/C15.v: sp_decide_relabel/_reorder, spw_decide_*, sc_decide_relabel/_perm, sc_algo_verdict_perm, "
